@@ -205,6 +205,23 @@ func grid(tier string) []cfgCase {
 	return out
 }
 
+func initTS(v vspec) int64 {
+	if v.ts < 0 {
+		return 0
+	}
+	return v.ts
+}
+
+func latestInit(c cfgCase) int64 {
+	var l int64
+	for _, v := range c.vals {
+		if t := initTS(v); t > l {
+			l = t
+		}
+	}
+	return l
+}
+
 func vio(class, format string, a ...interface{}) []seqmc.Violation {
 	return []seqmc.Violation{{Class: class, Msg: fmt.Sprintf(format, a...)}}
 }
@@ -334,7 +351,13 @@ func check(c cfgCase, seq []*fpb.Value, ended bool, err error) []seqmc.Violation
 				return vio("unbounded-value-dropped", "%v: stream ended although %s repeats indefinitely", c, name)
 			}
 			if spec.dmin == 0 {
-				progress = false
+				// a value that may stand still blocks everything stamped later -
+				// unless it stands at the latest initial timestamp, the sync
+				// marker's own: values sharing a timestamp take turns, so the
+				// marker (and every peer there) still gets out
+				if !(spec.dmax == 0 && initTS(spec) == latestInit(c)) {
+					progress = false
+				}
 			}
 		}
 	}
